@@ -1,0 +1,28 @@
+//go:build verif
+// +build verif
+
+package core
+
+import (
+	"strconv"
+
+	"com.tuntun.rangers/node/src/common"
+	"com.tuntun.rangers/node/src/middleware/log"
+	"com.tuntun.rangers/node/src/middleware/types"
+	"com.tuntun.rangers/node/src/service"
+	"com.tuntun.rangers/node/src/storage/account"
+)
+
+// VerifC06Init sets the package loggers and the refund/reward singletons the
+// way InitCore does, without opening a chain (C06 conservation harness).
+func VerifC06Init() {
+	logger = log.GetLoggerByIndex(log.CoreLogConfig, strconv.Itoa(common.InstanceIndex))
+	txLogger = log.GetLoggerByIndex(log.TxLogConfig, strconv.Itoa(common.InstanceIndex))
+	rewardLog = log.GetLoggerByIndex(log.RewardLogConfig, strconv.Itoa(common.InstanceIndex))
+	service.InitRefundManager(groupChainImpl, SyncProcessor)
+}
+
+// VerifC06Execute runs the unmodified VMExecutor over one block on the given state.
+func VerifC06Execute(db *account.AccountDB, block *types.Block, situation string) (common.Hash, []common.Hash, []*types.Transaction, []*types.Receipt) {
+	return newVMExecutor(db, block, situation).Execute()
+}
